@@ -161,6 +161,7 @@ func runSelftest(args []string) int {
 	expectViolation("mem-alias", "Mem", "Mem.cfg", map[string]string{"VERIF_ALIAS": "1"}, false)
 	expectViolation("readers-caching", "Readers", "Readers.cfg", map[string]string{"VERIF_CACHING": "1"}, false)
 	expectViolation("rapidgen-enum-by-index", "RapidGen", "RapidGen.cfg", map[string]string{"VERIF_ENUMIDX": "1"}, false)
+	expectViolation("skip-lax-scanner", "MC_Parse", "MC_Parse.cfg", map[string]string{"VERIF_LAX": "1", "VERIF_MAXLEN": "3", "VERIF_EXPORT": "0"}, false)
 	expectViolation("timepb-pinned-borrow", "TimePB", "TimePB.cfg", map[string]string{"VERIF_BORROW": "pinned", "VERIF_EXPORT": "0"}, false)
 	if r, out := apalacheInv(filepath.Join(dir, "apa"), "APA_TimePB", "ExactOnValidPinned"); r != "Error" {
 		fmt.Printf("selftest apalache-pinned: expected a counterexample, got %q %s\n", r, trunc(lastLines(out, 4), 300))
@@ -189,6 +190,7 @@ func runSelftest(args []string) int {
 		return 2
 	}
 	lines := readLines(events)
+	traceSpec := "Trace_Codec"
 	corrupt := func(name string, pick func(map[string]any) bool, mutate func(map[string]any)) {
 		out := make([]string, len(lines))
 		copy(out, lines)
@@ -210,7 +212,7 @@ func runSelftest(args []string) int {
 		}
 		tf := filepath.Join(dir, name+".ndjson")
 		os.WriteFile(tf, []byte(strings.Join(out, "\n")+"\n"), 0o644)
-		res, err := RunTLC(filepath.Join(dir, "b-"+name), TLCOpts{Spec: "Trace_Codec", Cfg: "Trace_Codec.cfg", Env: map[string]string{"VERIF_SCHEMA": schema, "VERIF_TRACE": tf}, Timeout: 10 * time.Minute})
+		res, err := RunTLC(filepath.Join(dir, "b-"+name), TLCOpts{Spec: traceSpec, Cfg: traceSpec + ".cfg", Env: map[string]string{"VERIF_SCHEMA": schema, "VERIF_TRACE": tf}, Timeout: 10 * time.Minute})
 		if err != nil || res.Err != "" {
 			fmt.Printf("selftest binding %s: %v %s\n", name, err, trunc(res.Err, 300))
 			fail++
@@ -243,6 +245,40 @@ func runSelftest(args []string) int {
 		u, _ := st["u"].([]any)
 		return len(u) > 0
 	}, func(e map[string]any) { e["st"].(map[string]any)["u"] = []any{} })
+	// the same for library-driven histories (Trace_Lib): a flipped result, a state with a field
+	// dropped, a removed event
+	if o, err := s.HRun(2*time.Minute, "lib-record", "--type", "verif.s0.M", "--n", "3", "--seed", "7", "--out", events); err != nil {
+		fmt.Printf("selftest: %v %s\n", err, o)
+		return 2
+	}
+	lines = readLines(events)
+	traceSpec = "Trace_Lib"
+	isOp := func(e map[string]any, side string) (map[string]any, map[string]any, bool) {
+		op, _ := e["op"].(map[string]any)
+		ret, _ := e["ret"].(map[string]any)
+		return op, ret, e["ev"] == "op" && e["side"] == side && op != nil && ret != nil
+	}
+	corrupt("lib-flip-bool", func(e map[string]any) bool { _, ret, ok := isOp(e, "impl"); return ok && ret["kind"] == "bool" },
+		func(e map[string]any) { r := e["ret"].(map[string]any); r["v"] = !(r["v"].(bool)) })
+	corrupt("lib-drop-state-field", func(e map[string]any) bool {
+		op, _, ok := isOp(e, "impl")
+		st, _ := e["st"].(map[string]any)
+		f, _ := st["f"].(map[string]any)
+		return ok && (op["op"] == "LAppend" || op["op"] == "Set" || op["op"] == "MSet") && len(f) > 0
+	}, func(e map[string]any) {
+		f := e["st"].(map[string]any)["f"].(map[string]any)
+		for k := range f {
+			delete(f, k)
+			break
+		}
+	})
+	corrupt("lib-wrong-range", func(e map[string]any) bool {
+		op, ret, ok := isOp(e, "impl")
+		v, _ := ret["v"].([]any)
+		return ok && op["op"] == "Range" && len(v) > 1
+	}, func(e map[string]any) { r := e["ret"].(map[string]any); r["v"] = r["v"].([]any)[1:] })
+	corrupt("lib-call-result", func(e map[string]any) bool { return e["ev"] == "done" && e["side"] == "impl" && e["call"] == "Merge" },
+		func(e map[string]any) { e["other"] = map[string]any{"f": map[string]any{}, "u": []any{float64(8), float64(1)}} })
 	if fail > 0 {
 		fmt.Printf("selftest: %d failure(s)\n", fail)
 		return 1
